@@ -52,6 +52,15 @@ class Verifier(Executor):
             return inv, f"{self.top_name}.inlined[{short}].loop{k}"
         return inv, f"{short}.loop{k}"
 
+    def ghost_extra(self):
+        """spec-only bindings available in loop invariants: the entry environment (for param()) and the entry values
+        of the variables a nested function re-binds (for old())"""
+        out = {"__entry__": Entry(self.entry_env)}
+        c = self.cur_contract_top
+        if c is not None and c.nonlocals:
+            out["__old_prims__"] = {n: self.entry_env[n] for n in c.nonlocals}
+        return out
+
     def ex_For(self, s, st, k):
         def got(it, st2):
             return self.run_for(s, it, st2, k)
@@ -190,7 +199,7 @@ class Verifier(Executor):
         lk = self._last_loop_k
         ghost = lambda st2, i: dict(st2.env, **{"_i": I(i), "_n": I(n), "_it": tsq[-1][1],
                                                 f"_i{lk}": I(i), f"_n{lk}": I(n), f"_it{lk}": tsq[-1][1],
-                                                "__entry__": Entry(self.entry_env)})
+                                                **self.ghost_extra()})
         old_for_inv = getattr(fr, "entry_st", None) or self.entry_st
         def inv_at(st2, i):
             return PureEval(self, st2, ghost(st2, i), old_st=old_for_inv).truth(inv)
@@ -263,7 +272,7 @@ class Verifier(Executor):
         inv, label = self.loop_info(s, st)
         if inv is None: raise Unsupported(f"{label}: loop without an invariant")
         fr = st.fr
-        ghost = lambda st2: dict(st2.env, __entry__=Entry(self.entry_env))
+        ghost = lambda st2: dict(st2.env, **self.ghost_extra())
         old_for_inv = getattr(fr, "entry_st", None) or self.entry_st
         inv_at = lambda st2: PureEval(self, st2, ghost(st2), old_st=old_for_inv).truth(inv)
         self.vc(f"{label}.invariant_on_entry", st, inv_at(st))
@@ -315,6 +324,8 @@ class Verifier(Executor):
                 if nme in defaults: env[nme] = self.const_default(defaults[nme])
                 else: raise core.CheckerError(f"{c.qual}: parameter {nme} missing from sig")
         if owner: env["__class__"] = SClosure("name", owner)
+        if c.captures:        # a nested function verified as a unit: it can call itself (through its contract)
+            env[fn.name] = SClosure("local", c.qual, recv=fn)
         self.entry_env = dict(env)
         st = st.but(env=env)
         # ids of all objects reachable at entry are alive
@@ -342,6 +353,10 @@ class Verifier(Executor):
         for kind, v, s in exits:
             spec_env = dict(self.entry_env)          # parameters denote their entry values (immutable or refs)
             spec_env["__entry__"] = Entry(self.entry_env)
+            if c.nonlocals:                          # re-bound variables of the enclosing scope: final value; old() = entry value
+                spec_env["__old_prims__"] = {n: self.entry_env[n] for n in c.nonlocals}
+                for n in c.nonlocals:
+                    spec_env[n] = s.env.get(n, self.entry_env[n])
             pe_old = PureEval(self, self.entry_st, dict(self.entry_env, __entry__=Entry(self.entry_env)), old_st=self.entry_st)
             if kind == "return":
                 spec_env["result"] = v
